@@ -279,12 +279,14 @@ def write_replay(prop, kind, body):
 
 
 def write_evidence(prop, tier, seed, coverage, assumptions, wall, violations, extra=None):
-    os.makedirs(os.path.join(ROOT, "evidence"), exist_ok=True)
+    # evidence/<P>.json describes runs against /repo itself; a run against a scratch copy (VERIF_REPO) writes elsewhere
+    edir = os.path.join(ROOT, "evidence") if REPO == "/repo" else os.path.join(WORK, "evidence_scratch")
+    os.makedirs(edir, exist_ok=True)
     ev = dict(property_id=prop, tier=tier, seed=seed, level="proof", coverage=coverage,
               assumptions=assumptions, wall_s=round(wall, 2), violations=violations)
     if extra:
         ev.update(extra)
-    json.dump(ev, open(os.path.join(ROOT, "evidence", prop + ".json"), "w"), indent=1, sort_keys=True)
+    json.dump(ev, open(os.path.join(edir, prop + ".json"), "w"), indent=1, sort_keys=True)
 
 
 def repo_state():
